@@ -39,3 +39,28 @@ func VerifH_Smoke1() {
 	vrt.Observe("num", n, e == nil)
 	vrt.Assert(n == 7, "seven")
 }
+
+// VerifH_SmokeLib: library idioms that seeded refactorings tend to introduce; every
+// observation is compared with the native run by the differential validation.
+func VerifH_SmokeLib() {
+	c := vrt.Byte("c")
+	vrt.Assume(vrt.Or(c == ' ', vrt.Or(c == 'a', c == '.')))
+	s := "1 " + string([]byte{c}) + "..2\t|x"
+	vrt.Observe("replacer", strings.NewReplacer(" ", "", "\t", "", "\n", "").Replace(s))
+	vrt.Observe("replacer2", strings.NewReplacer("..", "-", "a", "bb").Replace(s))
+	lo, hi, found := strings.Cut(s, "..")
+	vrt.Observe("cut", lo, hi, found)
+	vrt.Observe("fields", strings.Join(strings.Fields(s), ","))
+	vrt.Observe("trim", strings.TrimSpace(" "+s+" "), strings.TrimLeft(s, "1 "), strings.TrimSuffix(s, "|x"))
+	vrt.Observe("split", len(strings.SplitN(s, ".", 2)), strings.LastIndex(s, "."), strings.ContainsAny(s, "a|"))
+	vrt.Observe("map", strings.Map(func(r rune) rune {
+		if r == ' ' {
+			return -1
+		}
+		return r
+	}, s), strings.ToUpper(s), strings.EqualFold(s, strings.ToUpper(s)))
+	var b strings.Builder
+	b.WriteString(s)
+	b.WriteByte(c)
+	vrt.Observe("builder", b.String(), b.Len())
+}
